@@ -981,6 +981,95 @@ fn spec_kind_sig(s: &Spec, out: &mut String) {
     }
 }
 
+/// An endless source: remaining() is usize::MAX for ever (a lawful stream in the sense of the
+/// adapters: chunk() is never empty, advance never fails). Chained behind a finite header the
+/// total length saturates; Take and Reader must still bound and order exactly.
+struct Endless;
+static PATTERN: [u8; 8] = [0xD0, 0xD1, 0xD2, 0xD3, 0xD4, 0xD5, 0xD6, 0xD7];
+impl Buf for Endless {
+    fn remaining(&self) -> usize {
+        usize::MAX
+    }
+    fn chunk(&self) -> &[u8] {
+        &PATTERN
+    }
+    fn advance(&mut self, _cnt: usize) {}
+}
+
+fn endless_cases(rep: &mut Report) -> u64 {
+    let mut n = 0u64;
+    let hdr: &'static [u8] = &[1, 2, 3];
+    let mut check = |name: &str, f: &mut dyn FnMut() -> Result<(), String>| {
+        n += 1;
+        let r = catch_unwind(AssertUnwindSafe(|| f()));
+        let msg = match r {
+            Ok(Ok(())) => return,
+            Ok(Err(m)) => m,
+            Err(_) => "panicked".to_string(),
+        };
+        rep.violate("C12", &format!("endless:{}", name), &format!("header [1,2,3] chained before an endless source: {}: {}", name, msg), &format!("{{\"engine\":\"cursor\",\"case\":\"endless:{}\"}}", name));
+    };
+    check("chain-remaining", &mut || {
+        let c = Buf::chain(hdr, Endless);
+        if c.remaining() != usize::MAX {
+            return Err(format!("Chain::remaining() = {}, want usize::MAX (saturating)", c.remaining()));
+        }
+        if !c.has_remaining() || c.chunk() != hdr {
+            return Err("chunk() is not the header".into());
+        }
+        Ok(())
+    });
+    check("take-16", &mut || {
+        let mut t = Buf::chain(hdr, Endless).take(16);
+        if t.remaining() != 16 {
+            return Err(format!("take(16).remaining() = {}", t.remaining()));
+        }
+        let mut d = [0u8; 16];
+        t.copy_to_slice(&mut d);
+        if d[..3] != [1, 2, 3] || d[3..11] != PATTERN {
+            return Err(format!("take(16) delivered {:02x?}", d));
+        }
+        if t.remaining() != 0 || t.limit() != 0 || t.get_ref().first_ref().len() != 0 {
+            return Err(format!("after reading 16: remaining {} limit {}", t.remaining(), t.limit()));
+        }
+        Ok(())
+    });
+    check("reader", &mut || {
+        let mut r = Buf::chain(hdr, Endless).reader();
+        let mut d = [0u8; 8];
+        let k = r.read(&mut d).map_err(|e| e.to_string())?;
+        if k != 8 || d[..3] != [1, 2, 3] || d[3..] != PATTERN[..5] {
+            return Err(format!("Reader::read(8) returned {} bytes {:02x?}", k, d));
+        }
+        let mut e = [0u8; 4];
+        r.read_exact(&mut e).map_err(|e| format!("read_exact failed: {}", e))?;
+        Ok(())
+    });
+    check("take-then-reader-bufread", &mut || {
+        let mut r = Buf::chain(hdr, Endless).take(5).reader();
+        let fb = r.fill_buf().map_err(|e| e.to_string())?.to_vec();
+        if fb != hdr {
+            return Err(format!("fill_buf = {:02x?}", fb));
+        }
+        r.consume(3);
+        let mut rest = vec![];
+        r.read_to_end(&mut rest).map_err(|e| e.to_string())?;
+        if rest != PATTERN[..2] {
+            return Err(format!("after the header take(5) delivered {:02x?}", rest));
+        }
+        Ok(())
+    });
+    check("copy_to_bytes-across", &mut || {
+        let mut c = Buf::chain(hdr, Endless);
+        let b = c.copy_to_bytes(6);
+        if b[..] != [1, 2, 3, 0xD0, 0xD1, 0xD2] {
+            return Err(format!("copy_to_bytes(6) = {:02x?}", &b[..]));
+        }
+        Ok(())
+    });
+    n
+}
+
 pub fn run(tier: &str, parity_odd: bool, shard: usize, nshards: usize, prop: &str, rep: &mut Report) {
     let b = bounds(tier);
     let specs = enumerate(&b);
@@ -1007,6 +1096,11 @@ pub fn run(tier: &str, parity_odd: bool, shard: usize, nshards: usize, prop: &st
             continue;
         }
         trees += 1;
+        if rep.saturated() {
+            rep.exhaustive = false;
+            rep.caps.push("stopped after 12 distinct violations".into());
+            break;
+        }
         let mut sig = String::new();
         spec_kind_sig(spec, &mut sig);
         shapes.insert(sig);
@@ -1056,6 +1150,11 @@ pub fn run(tier: &str, parity_odd: bool, shard: usize, nshards: usize, prop: &st
                 }
             }
         }
+    }
+    if shard == 0 {
+        let n = oracle::subject(|| endless_cases(rep));
+        stats.execs += n;
+        rep.extra_num("endless_source_cases", n);
     }
     rep.states = seqs;
     rep.transitions = stats.steps;
